@@ -7,6 +7,9 @@ from vf.ref.ecref import SECP256K1 as S
 from vf.runner import Acc, filler
 
 PROPERTY = "C12"
+CONCUR_FILES = ('bits/bips/bip340.py', 'bits/ecmath.py')
+# (thread a, thread b), warm-up: indices into seq_ops() - the ordinary single-case checks run concurrently (vf/concur.py)
+CONCUR_SCEN = [((1, 8), (0,)), ((2, 9), (1,)), ((2, 2), (7, 8))]
 LEVEL = "exploration"
 ENGINES = ["E2-small-curve", "E1-scope-enumerator"]
 RULE = ("layer A (small curves): bip340.sign for EVERY secret key in [0,n+1] x 4 messages x 4 aux modes (incl. omitted aux "
@@ -19,6 +22,7 @@ RULE = ("layer A (small curves): bip340.sign for EVERY secret key in [0,n+1] x 4
 ASSUMPTIONS = ["E2 small-curve retargeting (see C03)", "vf/ref/bip340_ref.py transcribes the BIP340 algorithms; checked "
                "against the 19 official vectors in the selftest", "no length strictness is demanded of the secret key argument"]
 OBLIGATIONS = {
+    "concurrent_calls": "interleavings of two concurrent calls (single-case checks in two threads, cold and after warm-up calls)",
     "history_sequences": "operation sequences (non-initial process states) explored",
     "concurrent_first_calls": "interleavings of two concurrent first BIP340 calls explored",
     "e_zero": "a triple with challenge e = 0 (mod n) was signed or verified",
@@ -162,6 +166,9 @@ def run_case(kind, case):
         from vf import concur
         calls, judge = _concur_setup(case)
         return concur.replay_calls(calls, ("bits/bips/bip340.py", "bits/ecmath.py"), case["choices"], judge)
+    if kind == "concurcase":
+        from vf import concur
+        return concur.replay_cases(run_case, PROPERTY, case, CONCUR_FILES)
     if kind == "seq":
         from vf import seqexplore
         return seqexplore.replay(run_case, case)
@@ -231,12 +238,19 @@ def jobs(tier, seed):
             js.append({"name": f"secp/flips/{b}/{sh}", "part": "flips", "base": b, "shard": [sh, 16], "weight": 10})
     from vf.runner import seq_jobs
     js += seq_jobs(4, curve=list(T[0]), weight=4)
+    from vf.runner import concur_jobs
+    js += concur_jobs(len(CONCUR_SCEN), curve=list(T[0]))
     for i in range(3):
         js.append({"name": f"concurrent/{i}", "part": "concur", "curve": list(T[0]), "idx": i, "weight": 8})
     return js
 
 
 def run_job(job):
+    if job["part"] == "concurcase":
+        from vf.runner import run_concur_job
+        ops = seq_ops(dict(job, shard=[0, 1]))
+        scens = [{"threads": [ops[i] for i in th], "warm": [ops[i] for i in wm]} for th, wm in CONCUR_SCEN]
+        return run_concur_job(job, scens, run_case, PROPERTY, CONCUR_FILES)
     if job["part"] == "seq":
         from vf.runner import run_seq_job
         return run_seq_job(job, seq_ops(job), run_case)
